@@ -261,6 +261,7 @@ def creation_ids(ctx: Ctx, rule: str) -> None:
 def run(ctx: Ctx) -> None:
     ctx.call(N.should_rerun_table, "1")
     ctx.call(retry_ids, "2")
+    ctx.call(N.run_decision_table, "9r")
     ctx.call(lookup, "3")
     ctx.call(verdict, "4")
     ctx.call(replay_loading, "5")
